@@ -242,8 +242,61 @@ func c07Strings(w *run.Worker) {
 			}
 		}
 	}
+	// the same literal after a statement that took the lexer through another mode (a back-quoted
+	// name, each string form, a comment): what a spelling denotes does not depend on what came before
+	contexts := []string{"`k` = 1\n", "s = 'q'\n", "s = \"q\\n\"\n", "s = \"\"\"q\"\"\"\n", "s = '''q'''; ", "# c `\n"}
+	ctxLen := 3
+	if w.Thorough {
+		ctxLen = 4
+	}
+	inContext := func(body string) {
+		for style := 0; style < 5; style++ {
+			kind, val := c07ExpectString(style, body)
+			if kind == "unspec" {
+				continue
+			}
+			lit := c07Quotes[style][0] + body + c07Quotes[style][1]
+			for ci, ctx := range contexts {
+				if !w.Take() {
+					continue
+				}
+				src := ctx + "x = " + lit
+				if style == 4 {
+					src = ctx + lit + " = 1"
+				}
+				w.Eval()
+				prog, err := parseTree(src)
+				mk := c07Case{Source: src, Expect: kind + ":" + strconv.Quote(val)}
+				key := fmt.Sprintf("C07:string-in-context:%d:", ci)
+				switch {
+				case kind == "reject":
+					w.Outcome("reject")
+					if err == nil {
+						w.Violate(key+"malformed-accepted:"+c07EscClass(body), fmt.Sprintf("malformed literal accepted: %q parsed to %s", src, rt.SexpProg(prog)), mk)
+					}
+				case err != nil:
+					w.Violate(key+"valid-rejected:"+c07EscClass(body), fmt.Sprintf("valid literal rejected: %q (denotes %q): %v", src, val, err), mk)
+				case len(prog) == 0:
+					w.Violate(key+"wrong-value:"+c07EscClass(body), fmt.Sprintf("%q: parsed to an empty program", src), mk)
+				default:
+					var n *rt.Node
+					if last := prog[len(prog)-1]; len(prog) >= 1 && last.K == rt.KAssign && len(last.Kids) == 2 {
+						n = last.Kids[b2i(style != 4)]
+					}
+					if n == nil || n.S != val {
+						w.Violate(key+"wrong-value:"+c07EscClass(body), fmt.Sprintf("%q: the literal denotes %q, parsed as %s", src, val, rt.SexpProg(prog)), mk)
+					} else {
+						w.OutcomeHash(hash2(n.S, "ctx", ci))
+					}
+				}
+			}
+		}
+	}
 	rec = func(body string, n int) {
 		one(body)
+		if n <= ctxLen {
+			inContext(body)
+		}
 		if n == maxLen {
 			return
 		}
@@ -537,14 +590,28 @@ func c07Replay(raw json.RawMessage) (bool, string) {
 	} else {
 		got = rt.SexpProg(prog)
 	}
-	return true, fmt.Sprintf("%q\nparsed  : %s\nexpected: %s  (replay shows the parse; compare by eye or re-run the check)", c.Source, got, c.Expect)
+	bad := true
+	switch {
+	case strings.HasPrefix(c.Expect, "reject:"):
+		bad = err == nil
+	case strings.HasPrefix(c.Expect, "val:") && err == nil && len(prog) > 0:
+		if want, uerr := strconv.Unquote(strings.TrimPrefix(c.Expect, "val:")); uerr == nil {
+			last := prog[len(prog)-1]
+			for _, k := range last.Kids {
+				if k != nil && (k.K == rt.KStr || k.K == rt.KIdent) && k.S == want {
+					bad = false
+				}
+			}
+		}
+	}
+	return bad, fmt.Sprintf("%q\nparsed  : %s\nexpected: %s", c.Source, got, c.Expect)
 }
 
 func init() {
 	run.Register(&run.Check{
 		ID:    "C07",
 		Level: "model_checking",
-		Rule: "(A) every string body of length <=5 (thorough <=6) over the 17 symbols {a \" ' ` \\ n x u U 0 1 7 8 newline é NUL CR} between each of 5 quote styles, plus 51 longer escape forms (incl. a literal U+FFFD and truncated UTF-8); after every accepted literal the NEXT parse must leave the value held by the earlier tree unchanged; " +
+		Rule: "(A) every string body of length <=5 (thorough <=6) over the 17 symbols {a \" ' ` \\ n x u U 0 1 7 8 newline é NUL CR} between each of 5 quote styles, plus 51 longer escape forms (incl. a literal U+FFFD and truncated UTF-8); after every accepted literal the NEXT parse must leave the value held by the earlier tree unchanged; every body of length <=3 (thorough <=4) once more after a statement that took the lexer through another mode (a back-quoted name, each of the four string forms, a comment); " +
 			"(B) all integers 2^k, 2^k+-1 (k<=64), 10^k, 10^k+-1, 0..1999 spelled decimal and 0x/0X x 8 sign prefixes; (C) every float spelling d[.d[d]][e[+-]d] over the whole exponent range, shortest and 17-digit spellings of +-2^k and neighbours, inf/nan in all letter cases, 20 malformed numbers; " +
 			"(D) true/false/nil/null in all letter-case variants; oracle: reference decoder written from the Go escape rules (single quotes like double quotes), strconv.ParseFloat as trusted arithmetic",
 		Assumptions: []string{"unspecified cells skipped and counted: other triple quote inside a raw string, hex literals >= 2^63, float overflow (rejected or +-Inf both accepted), back quote inside a back-quoted identifier"},
